@@ -20,7 +20,8 @@ class NetRef:
 class Judge:
     """Fine invariants before coarse ones.  Normal mode: the first broken invariant ends the run.
     Deferred mode (scenario["defer_fine"]): fine violations are only remembered (the first one) and the run goes on
-    until the statement itself breaks; the coarse signature then carries `/after:<fine id>:<detail>`."""
+    until the statement itself breaks; the coarse signature then carries `/after:<fine id>:<detail>`
+    (nothing is appended when no fine invariant broke before)."""
 
     def __init__(self, defer: bool, cls: str):
         self.defer = bool(defer)
@@ -39,8 +40,7 @@ class Judge:
             if self.first_fine:
                 sig += f"/after:{self.first_fine[0]}:{self.first_fine[1]}"
                 msg += f"  [first fine violation earlier in this run: {self.first_fine[2]}]"
-            else:
-                sig += "/after:none"
+            # no fine invariant broke before: same signature as in a normal run
         raise Violation(sig, msg)
 
 
